@@ -60,6 +60,10 @@
   under interleavings (K2/K3: refuted for Online) are carried by the correspondence (statistics, `stats_at`, `is_free`,
   `tree_stats` and `validate()` compared with the ownership model after every call of every
   sequential history and at the quiescent end of every explored interleaving).
+
+  * `counter_transitions_match_source` — the entry transitions that move counters (`Tree::with`,
+    `Tree::put`, all of `impl LocalTree`) are re-derived from the Rust source on every run
+    (`tools/rs2lean.py`, `Gen/Tree.lean`, `Gen/Local.lean`) and proved equal to the model's.
 -/
 import LLFreeV.Proofs.UpperInit
 import LLFreeV.Proofs.OwnLowerThreads
@@ -69,6 +73,7 @@ import LLFreeV.Proofs.Validate
 import LLFreeV.Proofs.LowerQuery
 import LLFreeV.Proofs.ConcUpperThreads
 import LLFreeV.Proofs.ConcChange
+import LLFreeV.Proofs.GenTree
 namespace LLFree.C04
 open LLFree Prog
 
@@ -281,5 +286,22 @@ theorem conc_quiescent_with_tree_changes_fast_total (c : Cfg) (ok : CfgOk c) (H 
       Runs m' (treeStats c) (fun s m'' => m' = m'' ∧ s.freeFrames + blockSum H' c.ntrees = m'.freeTotal c.geom c.ntrees) := by
   obtain ⟨H', hle, hinv⟩ := upper_conc_quiescent_change ok H m inv n cmds hvalid sched hsched hdone
   exact ⟨H', hle, fast_total_exact c H' ok _ hinv⟩
+
+/-- **The counter transitions of the model are those of the current source**: `Tree::with`, `Tree::put`
+    and all of `impl LocalTree` (`with`, `none`, `get`, `put`, `set_start`) are regenerated from
+    `core/src/trees.rs` / `core/src/local.rs` on every run (`Gen/Tree.lean`, `Gen/Local.lean`) and agree
+    with the hand-written model for every argument: same new entry, same refusal, panic exactly
+    together (bit-field ranges: fewer than 2^19 frames per tree for the slot counter). -/
+theorem counter_transitions_match_source (tr tf : Nat) (t : Tree) (l : LTree) (free cls dflt row tree : Nat) (res : Bool) (otree : Option Nat)
+    (policy : PolicyFn) (htf : tf < 2 ^ 19) (hl : l.free < 2 ^ 19) :
+    GenTree.Sim (GenTree.ofR (Gen.T.with' tf free res cls)) (Tree.with tf free res cls) ∧
+    GenTree.Sim (GenTree.ofR (Gen.T.put tf t free policy dflt)) (Tree.put tf t free policy dflt) ∧
+    GenTree.Sim (GenTree.ofRL (Gen.L.with' row free)) (LTree.with row free) ∧
+    Gen.L.none' = .ok LTree.none ∧
+    GenTree.Sim (GenTree.ofROL (Gen.L.get tr l otree free)) (Upd.ofOption (LTree.get tr l otree free)) ∧
+    GenTree.Sim (GenTree.ofROL (Gen.L.put tr tf l tree free)) (LTree.put tr tf l tree free) ∧
+    GenTree.Sim (GenTree.ofROL (Gen.L.setStart tr l row)) (LTree.setStart tr l row) :=
+  ⟨GenTree.with_eq tf free res cls (by omega), GenTree.put_eq tf t free policy dflt (by omega), GenTree.lwith_eq row free,
+    GenTree.lnone_eq, GenTree.lget_eq tr l otree free hl, GenTree.lput_eq tr tf l tree free htf, GenTree.lsetStart_eq tr l row⟩
 
 end LLFree.C04
